@@ -49,6 +49,23 @@ fn build(port: u16, threads: usize, sh: Arc<Shared>, slow_teardown: bool) -> Ser
         res.ok(&h, "bye")
     });
     b.route(Method::Get, "/err", |_ctx, _res| Err(std::io::Error::other("handler error")));
+    // the handler returns Ok without answering: nothing is sent, the connection stays usable
+    b.route(Method::Get, "/silent", |_ctx, _res| Ok(()));
+    // the handler fails with an error of the named kind (a failed write to a peer that went away, a truncated upload, ...)
+    b.route(Method::Get, "/errkind/:k", |ctx, _res| {
+        use std::io::ErrorKind::*;
+        let kind = match ctx.params.get("k") {
+            Some("brokenpipe") => BrokenPipe,
+            Some("reset") => ConnectionReset,
+            Some("aborted") => ConnectionAborted,
+            Some("eof") => UnexpectedEof,
+            Some("wouldblock") => WouldBlock,
+            Some("timedout") => TimedOut,
+            Some("invaliddata") => InvalidData,
+            _ => Other,
+        };
+        Err(std::io::Error::new(kind, "handler error"))
+    });
     b.route(Method::Get, "/bigr/:n", |ctx, res| {
         let n: u64 = ctx.params.get("n").and_then(|s| s.parse().ok()).unwrap_or(0);
         res.okr(Headers::empty_nodate(), std::io::repeat(b'x').take(n))
